@@ -99,6 +99,15 @@ mod verif_app_wit {
             let i = expected.iter().position(|e| e == g).unwrap_or_else(|| panic!("unexpected generated query {}", g));
             expected.remove(i);
         }
+        // an axis that MIXES scalar and object options: each option is treated by its own kind -- the scalar goes under the axis' name, the object is merged into the top level
+        for opts in [json!(["camry", {"model_name": "bolt", "starting_soc_percent": 80}]), json!([{"model_name": "bolt", "starting_soc_percent": 80}, "camry"])] {
+            let mut q4 = json!({"keep": "me", "grid_search": {"model_name": opts}});
+            GridSearchPlugin {}.process(&mut q4).unwrap();
+            let got = q4.as_array().expect("an array of generated queries").clone();
+            assert_eq!(got.len(), 2, "one query per option");
+            assert!(got.contains(&json!({"keep": "me", "model_name": "camry"})), "the scalar option goes under the axis' name: {:?}", got);
+            assert!(got.contains(&json!({"keep": "me", "model_name": "bolt", "starting_soc_percent": 80})), "the object option is merged into the top level: {:?}", got);
+        }
         // a query without a grid section passes through unchanged
         let mut q3 = json!({"origin_vertex": 1, "destination_vertex": 2});
         GridSearchPlugin {}.process(&mut q3).unwrap();
